@@ -368,7 +368,7 @@ impl Property for C18 {
         "fault_enumeration"
     }
     fn rule(&self) -> String {
-        "A case = secure server with a client limit of 1-3 at construction, raised or lowered at run time in some cases; 1-4 honest clients on distinct addresses spawned at any time, token timeouts 1-15 s or disabled, 1-3 server addresses of which a prefix is silent (the first of them, in some cases, a second server that answers the request with a challenge and is never heard of again); ticks of 10 ms - 1 s around the 250 ms send rate; per-datagram loss / delay by 1-3 ticks / duplication in both directions during and after the handshake, whole-silence periods per client, the server application streaming a payload to every connected client each tick in some cases, forged and replayed datagrams presented to both sides during silences. A model keeps, per side, the time of the last authentic and fresh packet accepted (genuine datagram delivered for the first time to the endpoint holding that session). Oracles at every update: a peer whose last accepted packet is older than its timeout is reported disconnected by that update (server: ClientDisconnected; client: ConnectionTimedOut), one whose accepted packets are not further apart is not; half-open sessions are gone after their token's expiry second; a denial only happens when the server was full or the id/address was taken during that attempt. Enumerated besides the histories: every address-list length 1-32 with every position of the single answering address (or none), four timeout / tick combinations, loss-free - the client must walk the list, connect at the answering address or end disconnected when the list is exhausted, within (timeout/tick + 3) updates per address. After faults stop: every client still connecting whose attempt never met a full server or a taken id/address, with an unexpired token and timeouts enabled when addresses are silent, is connected on both sides within sum(timeouts of the remaining silent addresses) + 8*max(250 ms, tick) + 1 s. Non-trivial: a handshake datagram of at least two of the four kinds was lost, or a silent first address, a raised limit, or a forged packet during a silence occurred, and the heal obligation was evaluated. Distinct = hash of the decoded operation trace.".into()
+        "A case = secure server with a client limit of 1-3 at construction, raised or lowered at run time in some cases; 1-4 honest clients on distinct addresses spawned at any time, token timeouts 1-15 s or disabled, 1-3 server addresses of which a prefix is silent (the first of them, in some cases, a second server that answers the request with a challenge and is never heard of again); ticks of 10 ms - 1 s around the 250 ms send rate; per-datagram loss / delay by 1-3 ticks / duplication in both directions during and after the handshake, whole-silence periods per client, the server application streaming a payload to every connected client each tick in some cases, forged and replayed datagrams presented to both sides during silences. A model keeps, per side, the time of the last authentic and fresh packet accepted (genuine datagram delivered for the first time to the endpoint holding that session). Oracles at every update: a peer whose last accepted packet is older than its timeout is reported disconnected by that update (server: ClientDisconnected; client: ConnectionTimedOut), one whose accepted packets are not further apart is not; half-open sessions are gone after their token's expiry second; a denial only happens when the server was full or the id/address was taken during that attempt. Enumerated besides the histories: every address-list length 1-32 with every position of the single answering address (or none), four timeout / tick combinations, delivered at once, with the first datagram to the answering server lost, or with one tick of latency each way - the client must walk the list, connect at the answering address or end disconnected when the list is exhausted, within (timeout/tick + 3) updates per address. After faults stop: every client still connecting whose attempt never met a full server or a taken id/address, with an unexpired token and timeouts enabled when addresses are silent, is connected on both sides within sum(timeouts of the remaining silent addresses) + 8*max(250 ms, tick) + 1 s. Non-trivial: a handshake datagram of at least two of the four kinds was lost, or a silent first address, a raised limit, or a forged packet during a silence occurred, and the heal obligation was evaluated. Distinct = hash of the decoded operation trace.".into()
     }
     fn assumptions(&self) -> Vec<String> {
         vec![
@@ -385,18 +385,25 @@ impl Property for C18 {
     }
     fn enums(&self, _tier: Tier) -> Vec<(&'static str, u64)> {
         // every address-list length 1..=32 x every position of the one answering address (or none) x 4 timeout / tick combinations
-        vec![("address_lists", 32 * 33 * 4)]
+        vec![("address_lists", 32 * 33 * 4 * 3)]
     }
     fn run_enum(&self, name: &str, index: u64, ctx: &mut Ctx) -> Outcome {
         let v = (index % 4) as usize;
-        let p = ((index / 4) % 33) as usize;
-        let n = 1 + (index / 4 / 33) as usize;
+        // delivery: 0 = at once; 1 = the first datagram that reaches the answering server is lost; 2 = every datagram takes one tick
+        // (each way), only where a round trip still fits into the timeout
+        let mode = ((index / 4) % 3) as usize;
+        let p = ((index / 12) % 33) as usize;
+        let n = 1 + (index / 12 / 33) as usize;
         if n > 32 || p > n {
             return Ok(());
         }
         // ticks stay shorter than the timeout (a peer updated less often than its timeout cannot hold any session)
         let (timeout, dt_ms) = [(1i32, 300u64), (2, 1100), (2, 700), (3, 2600)][v];
-        ctx.op(&(name, n, p, timeout, dt_ms));
+        // a lost or delayed datagram costs one more tick: only where two ticks still fit into the timeout
+        if mode != 0 && 2 * dt_ms >= timeout as u64 * 1000 {
+            return Ok(());
+        }
+        ctx.op(&(name, n, p, timeout, dt_ms, mode));
         let mut nw = NetWorld::new(7 + index);
         nw.servers.push(mk_server(0, 1, PROTO, 2, nw.now, true));
         // position p answers (p == n: nobody does)
@@ -405,15 +412,51 @@ impl Property for C18 {
         nw.add_client(t, client_addr(0), 1);
         let dt = Duration::from_millis(dt_ms);
         let per_addr = (timeout as u64 * 1000).div_ceil(dt_ms) + 3;
-        let bound = n as u64 * per_addr + 12;
+        let bound = n as u64 * per_addr + 20;
+        let mut first_lost = false;
+        // datagrams in flight for one tick (mode 2): towards the server / towards the client
+        let mut up: Option<(SocketAddr, Vec<u8>)> = None;
+        let mut down: Vec<Vec<u8>> = vec![];
         for step in 0..bound {
             nw.now += dt;
+            let mut replies: Vec<Vec<u8>> = vec![];
             for o in nw.server_tick(0, dt) {
                 if let SrvOut::Send { did, .. } | SrvOut::Disconnected { did: Some(did), .. } = o {
-                    nw.deliver_to_clients(did);
+                    replies.push(nw.pool[did].bytes.clone());
                 }
             }
-            nw.honest_step(0, dt, false, false);
+            if mode == 2 {
+                // what was sent one tick ago arrives now
+                for b in std::mem::take(&mut down) {
+                    if nw.clients[0].client.server_addr() == server_addr(0) {
+                        nw.client_recv(0, &b);
+                    }
+                }
+                if let Some((from, b)) = up.take() {
+                    if let SrvOut::Send { did, .. } | SrvOut::Connected { did, .. } = nw.server_recv(0, from, &b) {
+                        replies.push(nw.pool[did].bytes.clone());
+                    }
+                }
+                down = replies;
+                if let Some(did) = nw.client_update(0, dt) {
+                    let d = nw.pool[did].clone();
+                    if d.to == server_addr(0) {
+                        up = Some((d.src, d.bytes));
+                    }
+                }
+            } else {
+                for b in replies {
+                    if nw.clients[0].client.server_addr() == server_addr(0) {
+                        nw.client_recv(0, &b);
+                    }
+                }
+                let lose = mode == 1 && !first_lost && nw.clients[0].client.server_addr() == server_addr(0);
+                if lose {
+                    first_lost = true;
+                    ctx.label("first_request_lost");
+                }
+                nw.honest_step(0, dt, lose, false);
+            }
             let client = &nw.clients[0].client;
             if client.is_connected() && nw.servers[0].server.client_addr(800) == Some(client_addr(0)) {
                 if p == n {
